@@ -127,7 +127,7 @@ func init() {
 					return &Mismatch{Step: i, Kind: "errmismatch", Got: "error: " + err.Error(), Exp: "ok"}
 				}
 			case "write":
-				d := st.Hex("data")
+				d := st.HexMut("data")
 				keep := append([]byte(nil), d...)
 				n, err := h.Write(d)
 				if err != nil || n != len(d) {
@@ -137,6 +137,7 @@ func init() {
 					mm.Note = "Write modified its argument"
 					return mm
 				}
+				Reuse(d) // Write must not retain p
 			case "sum":
 				if mm := Diff(i, h.Sum(st.HexMut("prefix")), st.Hex("exp")); mm != nil {
 					return mm
